@@ -230,6 +230,11 @@ func vc04MakeCreds(t *testing.T, keys []vc04Key, attacker vc04Key, aud string, n
 	c, cl = mk(attacker, k0.comment, now.Add(-time.Minute), now.Add(-time.Minute), now.Add(time.Hour), aud)
 	out = append(out, vc04Cred{kind: "attacker-key", hdr: "Bearer " + c, tok: vc04Tok{Parses: true, Sigs: one(attacker), Verifies: ver(attacker), Claims: cl}})
 	out = append(out, vc04Cred{kind: "garbage", hdr: "Bearer invalid", tok: vc04Tok{Sigs: []vc04Sig{}, Verifies: ver(attacker)}})
+	// headers that are non-empty but consist of (Unicode) white space only, or of a single field: zero / one field after strings.Fields
+	for _, kv := range [][2]string{{"ws-nbsp", "\u00a0"}, {"ws-nel", "\u0085"}, {"ws-emspace", "\u2003"}, {"ws-ideographic", "\u3000"},
+		{"ws-mixed", "\u00a0 \t\u2003\u3000"}, {"one-field", "Bearer"}, {"one-field-nbsp", "\u00a0Bearer\u00a0"}} {
+		out = append(out, vc04Cred{kind: kv[0], hdr: kv[1], tok: vc04Tok{Sigs: []vc04Sig{}, Verifies: ver(attacker)}})
+	}
 	return out
 }
 
@@ -626,7 +631,7 @@ func TestVerifC04(t *testing.T) {
 		"B": vc04StartEngine(t, "B", true, true, keysFile, aud, vc04Routes),   // one shared listener, token auth
 		"C": vc04StartEngine(t, "C", false, false, keysFile, aud, vc04Routes), // two listeners, no auth
 		"D": vc04StartEngine(t, "D", false, true, keysFile, aud, rndRoutes),   // two listeners, token auth, random route table
-		"E": vc04StartEngine(t, "E", false, true, keysFile, "", vc04Routes),    // token auth, NO audience configured: the host name is enforced
+		"E": vc04StartEngine(t, "E", false, true, keysFile, "", vc04Routes),   // token auth, NO audience configured: the host name is enforced
 	}
 	defer func() {
 		for _, e := range engines {
